@@ -1,4 +1,5 @@
 """ACK (C08) and Q2DEDUP (C09): acknowledgement of inbound PUBLISH / PUBREL in the inbound handler."""
+import re
 from engine import rule, Inst, AnchorLost
 from ctx import match_arms, arm_of, RXPACKET, fmt_atoms, short_ty
 from mir import callee_name, callee_resolved
@@ -273,6 +274,16 @@ def q2dedup(ctx):
                 out.append(Inst("Q2DEDUP", "release:%s" % r.detail["method"], keyed and not cd_bad, r.site(),
                                 "PUBREL releases the identifier with %s (%s%s)" % (r.detail["method"], "by value" if keyed else "by position", ", " + ",".join(cd_bad) if cd_bad else ""),
                                 "the identifier of the PUBREL is released wherever it is stored (a later PUBLISH reusing it is a new message)"))
+                # ... whatever the PUBREL says: its reason code (a failure code answers a PUBREC of ours that refused the
+                # message; the exchange is over either way) does not decide whether the identifier is released
+                rdep = []
+                for (d, s_) in hp.control_dep_closure(r.inner_bb if not r.via else r.bb):
+                    atoms, si = _decision_atoms(hp, d)
+                    if any(a[0] == "field" and a[2] == "reason" for a in atoms):
+                        rdep.append(hp.site(d))
+                out.append(Inst("Q2DEDUP", "release-independent-of-reason:%s" % r.detail["method"], not rdep, r.site(),
+                                "release of the identifier %s" % ("does not depend on the PUBREL's reason code" if not rdep else "depends on the reason code tested at %s" % sorted(set(rdep))),
+                                "every PUBREL ends the exchange: the identifier may be used for a new message afterwards"))
             # the bookkeeping is released by PUBREL only (PUBCOMP / PUBACK belong to the outbound identifier space)
             for x in effs:
                 if x.kind in ("Remove", "Clear") and x.detail["fields"] & guard_fields:
@@ -327,4 +338,44 @@ def q2dedup(ctx):
                         dup_dep.append(hp.site(d))
             out.append(Inst("Q2DEDUP", "independent-of-dup", not dup_dep, e.site(), "delivery / bookkeeping decisions depending on the DUP flag: %s" % (sorted(set(dup_dep)) or "none"),
                             "a repeated QoS 2 PUBLISH is a re-delivery whether or not the broker set DUP"))
+    return out
+
+
+# ------------------------------------------------------------------------------------ HANDLER-AWAITS
+
+@rule("HANDLER-AWAITS", floor=6)
+def handler_awaits(ctx):
+    """The two handlers of the context task suspend on nothing but writes to the transport (directly, or through the
+    acknowledgement helper): what a handler waits for is under the control of the peer's flow control only, never of the
+    application (a full subscription queue, a response channel) -- a stream nobody reads cannot hold up acknowledgements,
+    other streams or other operations."""
+    from mir import callee_resolved as _cr
+    out = []
+    ok_src = re.compile(r"(client::context::Context(::<[^>]*>)?::ack|io::packet_stream::TxPacketStream(::<[^>]*>)?::write)$")
+    for role, body in (("inbound", ctx.inbound_handler()), ("outbound", ctx.outbound_handler())):
+        for a in body.awaits():
+            o = a["origin"]
+            nm = (_cr(o[2]) or callee_name(o[2]) or "?") if o[0] == "call" else "a future that is not the result of a call (%s)" % o[0]
+            ok = o[0] == "call" and bool(ok_src.search(nm))
+            # a crate-local async helper that itself only awaits writes (`send_ack`, `write_packet`)
+            if not ok and o[0] == "call" and ctx.facts.fn(nm) is not None and ctx.layer_of(nm) == "client":
+                co = ctx.facts.fn(nm + "::{closure#0}")
+                if co is not None and co["kind"] == "coroutine":
+                    hb = ctx.flat(ctx.world.body(nm + "::{closure#0}"))
+                    inner = [x["origin"] for x in hb.awaits()]
+                    ok = bool(inner) and all(x[0] == "call" and ok_src.search(_cr(x[2]) or callee_name(x[2]) or "") for x in inner)
+            out.append(Inst("HANDLER-AWAITS", "%s:%s" % (role, nm.split("::")[-1] if o[0] == "call" else "non-call"), ok, body.site(a["poll_bb"]),
+                            "the %s handler awaits %s" % (role, nm), "only writes to the transport are awaited inside a handler"))
+    # the queues on which the context hands packets to the application (the subscription streams) are unbounded: sending
+    # never waits, whoever reads or does not read them
+    for f_ in ctx.facts.fns:
+        if not f_["file"].startswith("src/client/"):
+            continue
+        b = ctx.world.body(f_["path"])
+        for i, t in b.calls(r"futures_channel::mpsc::channel$|mpsc::channel$|mpsc::Sender::<[^>]*>::(send|try_send|start_send|poll_ready)$|SinkExt::send$|SinkExt::feed$"):
+            tys = " ".join((t["callee"].get("args") or []) + [t["callee"].get("self_ty") or ""])
+            if "RxPacket" not in tys:
+                continue
+            out.append(Inst("HANDLER-AWAITS", "bounded-channel:%s" % (callee_name(t) or "").split("::")[-1], False, b.site(i), "%s::<%s> in %s" % (callee_name(t), tys[:80], b.path),
+                            "the queues from the context to the application are unbounded (mpsc::unbounded, oneshot)"))
     return out
